@@ -45,7 +45,26 @@ type rgen struct {
 	media      string
 	depth      int
 	tableParts map[*Elem]bool
-	importable []string // files a later @import may name again
+	importable []string       // files a later @import may name again
+	fileDepth  map[string]int // length of the longest import chain starting at the file
+}
+
+// importDepth returns the longest import chain below the items.
+func (g *rgen) importDepth(items []Item) int {
+	d := 0
+	for _, it := range items {
+		switch it.Kind {
+		case "import":
+			if x := g.fileDepth[it.File]; x > d {
+				d = x
+			}
+		case "media":
+			if x := g.importDepth(it.Items); x > d {
+				d = x
+			}
+		}
+	}
+	return d
 }
 
 func parentOf(root, e *Elem) *Elem {
@@ -355,8 +374,15 @@ func (g *rgen) items(h *hostSheet, origin string, n int, allowMedia, allowImport
 			} else {
 				sub := &hostSheet{}
 				g.items(sub, origin, 1+r.Intn(2), true, g.b.nFile < 4)
-				f = g.b.file(sub.sheet())
-				g.importable = append(g.importable, f)
+				sh := sub.sheet()
+				f = g.b.file(sh)
+				if g.fileDepth == nil {
+					g.fileDepth = map[string]int{}
+				}
+				g.fileDepth[f] = 1 + g.importDepth(sh.Items)
+				if g.fileDepth[f] <= 2 {
+					g.importable = append(g.importable, f) // bounds every chain to 4 + 2 levels
+				}
 			}
 			imp := Item{Kind: "import", File: f, Var: r.Intn(4)}
 			if imp.Var == 2 && excludeImportURLFunction {
@@ -407,7 +433,11 @@ func genRandom(r *rand.Rand) caseIn {
 		}
 		var media []string
 		if r.Intn(5) == 0 {
-			media = pick(r, mediaLists[:5])
+			if excludeMediaAttrCase {
+				media = pick(r, mediaLists[:5])
+			} else {
+				media = pick(r, mediaLists)
+			}
 		}
 		a := b.newAuthor(kind, media)
 		g.items(a.host, "author", 1+r.Intn(3), true, true)
@@ -481,34 +511,36 @@ func knownDefectTrigger(doc *Doc, media string, hints, forms bool) string {
 		if e.Sheet > 0 {
 			continue
 		}
-		for _, p := range allProps {
-			cs := f.candidates(e, p, hints)
-			w, _ := winner(cs)
-			val := func(cs []cand, w int) int {
-				if w < 0 {
-					return -1
-				}
-				return cs[w].d.Val
-			}
-			if excludeStyleAttrVsID && len(cs) >= 2 {
-				// webrender: style attribute = specificity (1,0,0), inserted before every sheet
-				ds := make([]cand, len(cs))
-				for i, c := range cs {
-					if c.attr {
-						c.attr = false
-						c.spec = Spec{1, 0, 0}
-						c.order = -1000 + c.order
+		for _, pe := range []string{"", "before", "after"} {
+			for _, p := range allProps {
+				cs := f.candidatesPE(e, pe, p, hints)
+				w, _ := winner(cs)
+				val := func(cs []cand, w int) int {
+					if w < 0 {
+						return -1
 					}
-					ds[i] = c
+					return cs[w].d.Val
 				}
-				if dw, _ := winner(ds); ds[dw].d.Val != cs[w].d.Val {
-					return "style-attr"
+				if excludeStyleAttrVsID && len(cs) >= 2 {
+					// webrender: style attribute = specificity (1,0,0), inserted before every sheet
+					ds := make([]cand, len(cs))
+					for i, c := range cs {
+						if c.attr {
+							c.attr = false
+							c.spec = Spec{1, 0, 0}
+							c.order = -1000 + c.order
+						}
+						ds[i] = c
+					}
+					if dw, _ := winner(ds); ds[dw].d.Val != cs[w].d.Val {
+						return "style-attr"
+					}
 				}
-			}
-			for k, a := range alts {
-				as := a.candidates(e, p, hints)
-				if aw, _ := winner(as); val(as, aw) != val(cs, w) {
-					return altNames[k]
+				for k, a := range alts {
+					as := a.candidatesPE(e, pe, p, hints)
+					if aw, _ := winner(as); val(as, aw) != val(cs, w) {
+						return altNames[k]
+					}
 				}
 			}
 		}
